@@ -622,6 +622,243 @@ example : ∀ k, (proj hotMod k [some { id := "", res := "h", metric := 1, cb :=
   · have : ("h" == k) = false := by simpa using fun e => h e.symm
     simp [proj, hotMod, this]
 
+section modes
+variable {R : Type} [DecidableEq R] {M : RuleMod R}
+
+/-- whole-set analogue of `fail_load_installs_rest`: a `LoadRules` executed while the custom generator returns errors installs,
+    for every resource, the controllers of its group *without the custom rules* and caches the *whole* grouped input -/
+theorem fail_loadAll_installs_rest (custom : R → Bool) (s : MState R) (rules : List (Option R))
+    (hc : ¬ (s.keys ++ ruleKeys M rules).all (fun k => s.cache k == proj M k rules) = true)
+    (hq : ∀ k, ∀ r ∈ validList M (proj M k rules), custom r = true → ∀ o ∈ s.bound k, M.equals o r = false) :
+    (loadAllG M custom .fail s rules).2 = .changed ∧
+    (∀ k, (loadAllG M custom .fail s rules).1.bound k =
+        buildReuse M k ((validList M (proj M k rules)).filter fun r => !custom r) (s.bound k)) ∧
+    (∀ k, (loadAllG M custom .fail s rules).1.cache k = (proj M k rules).map (normIn (withGen M custom .fail) k)) := by
+  have e : loadAllG M custom .fail s rules = loadAll (withGen M custom .fail) s rules := by
+    unfold loadAllG; simp
+  have hc' : ¬ (s.keys ++ ruleKeys (withGen M custom .fail) rules).all
+      (fun k => s.cache k == proj (withGen M custom .fail) k rules) = true := hc
+  rw [e, loadAll_changed hc']
+  refine ⟨rfl, fun k => ?_, fun k => rfl⟩
+  show buildReuse (withGen M custom .fail) k (validList (withGen M custom .fail) (proj (withGen M custom .fail) k rules)) (s.bound k) = _
+  rw [validList_withGen]
+  exact buildReuse_fail custom k _ _ (hq k)
+
+/-- … and the identical whole-set retry after the generator recovered is short-circuited -/
+theorem retry_all_after_fail_short_circuited (custom : R → Bool) (s : MState R) (rules : List (Option R))
+    (hn : ∀ k, (proj M k rules).map (normIn (withGen M custom .fail) k) = proj M k rules) :
+    (loadAllG M custom .ok (loadAllG M custom .fail s rules).1 rules).2 = .unchanged ∧
+    (loadAllG M custom .ok (loadAllG M custom .fail s rules).1 rules).1 = (loadAllG M custom .fail s rules).1 := by
+  have e : ∀ t, loadAllG M custom .fail t rules = loadAll (withGen M custom .fail) t rules := by
+    intro t; unfold loadAllG; simp
+  have e' : ∀ t, loadAllG M custom .ok t rules = loadAll (withGen M custom .ok) t rules := by
+    intro t; unfold loadAllG; simp
+  rw [e, e']
+  by_cases hc : (s.keys ++ ruleKeys (withGen M custom .fail) rules).all
+      (fun k => s.cache k == proj (withGen M custom .fail) k rules) = true
+  · rw [loadAll_unchanged hc]
+    have hc' : (s.keys ++ ruleKeys (withGen M custom .ok) rules).all
+        (fun k => s.cache k == proj (withGen M custom .ok) k rules) = true := hc
+    rw [loadAll_unchanged hc']; exact ⟨rfl, rfl⟩
+  · have hk : (loadAll (withGen M custom .fail) s rules).1.keys = ruleKeys M rules := by rw [loadAll_changed hc]; rfl
+    have hcache : ∀ k, (loadAll (withGen M custom .fail) s rules).1.cache k = proj M k rules := by
+      intro k; rw [loadAll_changed hc]; exact hn k
+    have hc' : ((loadAll (withGen M custom .fail) s rules).1.keys ++ ruleKeys (withGen M custom .ok) rules).all
+        (fun k => (loadAll (withGen M custom .fail) s rules).1.cache k == proj (withGen M custom .ok) k rules) = true := by
+      rw [List.all_eq_true]; intro k _
+      rw [hcache k]; simp; rfl
+    rw [loadAll_unchanged hc']; exact ⟨rfl, rfl⟩
+
+/-! #### the remaining history theorems over mode-changing histories -/
+
+theorem loadAll_outcome_withGen (custom : R → Bool) (g : GenMode) (s : MState R) (rules : List (Option R)) :
+    (loadAll (withGen M custom g) s rules).2 = (loadAll M s rules).2 := by
+  by_cases hc : (s.keys ++ ruleKeys M rules).all (fun k => s.cache k == proj M k rules) = true
+  · have hc' : (s.keys ++ ruleKeys (withGen M custom g) rules).all
+        (fun k => s.cache k == proj (withGen M custom g) k rules) = true := hc
+    rw [loadAll_unchanged hc, loadAll_unchanged hc']
+  · have hc' : ¬ (s.keys ++ ruleKeys (withGen M custom g) rules).all
+        (fun k => s.cache k == proj (withGen M custom g) k rules) = true := hc
+    rw [loadAll_changed hc, loadAll_changed hc']
+
+/-- **identical whole-set reload reports "unchanged"** after any interleaving of loads and generator-mode changes outside
+    `generator-error-swallowed`, whatever the generator does at the time of the two loads (the first one not panicking) -/
+theorem identical_reload_unchanged_modes_partial (hM : Lawful M) (custom : R → Bool) (ops : List (GOp R))
+    (h : NoFailedBuild M custom .ok ops) (rules : List (Option R))
+    (hs : (runE M custom ops).mode = .fail → ∀ r, some r ∈ rules → M.valid r = true → custom r = false)
+    (hfirst : (opG M custom (runE M custom ops).mode (runE M custom ops).st (.loadAll rules)).2 ≠ .changedErr)
+    (hn : ∀ k, (proj M k rules).map (normIn M k) = proj M k rules) :
+    (opG M custom (runE M custom ops).mode
+        (opG M custom (runE M custom ops).mode (runE M custom ops).st (.loadAll rules)).1 (.loadAll rules)).2 = .unchanged := by
+  have h1 := opG_eq_step custom _ _ _ hfirst hs
+  rw [h1, runE_eq_run_executed custom ops h]
+  have hu := identical_reload_unchanged_partial hM (runE M custom ops).executed rules hn
+  rw [run_snoc] at hu
+  show (loadAllG M custom _ _ rules).2 = .unchanged
+  unfold loadAllG
+  have hu' : (loadAll M (step M (run M (runE M custom ops).executed) (Op.loadAll rules)).1 rules).2 = .unchanged := hu
+  split_ifs with hc
+  · rw [hu'] at hc; exact absurd hc.2.1 (by decide)
+  · rw [loadAll_outcome_withGen]; exact hu'
+
+/-- the identity layer as the driver composes it: `cstep` under the module the generator mode induces, skipped when the
+    build panicked -/
+structure GCState (R : Type) where
+  st : MState R
+  mode : GenMode
+  c : CState R
+
+def stepEC (M : RuleMod R) (custom : R → Bool) (x : GCState R) : GOp R → GCState R
+  | .mode g => { x with mode := g }
+  | .load o =>
+    if (opG M custom x.mode x.st o).2 = .changedErr then x
+    else { x with st := (opG M custom x.mode x.st o).1, c := cstep (withGen M custom x.mode) x.st x.c o }
+
+def runEC (M : RuleMod R) (custom : R → Bool) (ops : List (GOp R)) : GCState R :=
+  ops.foldl (stepEC M custom) ⟨MState.init, .ok, CState.init⟩
+
+theorem opG_eq_step_withGen (custom : R → Bool) (g : GenMode) (s : MState R) (o : Op R)
+    (hne : (opG M custom g s o).2 ≠ .changedErr) : (opG M custom g s o).1 = (step (withGen M custom g) s o).1 := by
+  cases o with
+  | loadAll rules => simp only [opG, loadAllG, step] at hne ⊢; split_ifs at hne ⊢ <;> first | rfl | exact absurd rfl hne
+  | loadRes res rules => simp only [opG, loadResG, step] at hne ⊢; split_ifs at hne ⊢ <;> first | rfl | exact absurd rfl hne
+  | clearAll => simp only [opG, loadAllG, step] at hne ⊢; split_ifs at hne ⊢ <;> first | rfl | exact absurd rfl hne
+  | clearRes res => simp only [opG, loadResG, step] at hne ⊢; split_ifs at hne ⊢ <;> first | rfl | exact absurd rfl hne
+
+/-- **one controller per bound rule, pairwise distinct objects — over every history with generator-mode changes, inside
+    the finding's region too** (no side condition) -/
+theorem controllers_distinct_modes (custom : R → Bool) (ops : List (GOp R)) (k : String) :
+    (((runEC M custom ops).c.ctrl k).map Prod.snd).Nodup ∧
+    ((runEC M custom ops).c.ctrl k).map Prod.fst = (runEC M custom ops).st.bound k := by
+  have gen : ∀ (ops : List (GOp R)) (x : GCState R), CInv x.st x.c →
+      CInv (ops.foldl (stepEC M custom) x).st (ops.foldl (stepEC M custom) x).c := by
+    intro ops
+    induction ops with
+    | nil => intro x hx; exact hx
+    | cons op ops ih =>
+      intro x hx
+      rw [List.foldl_cons]
+      apply ih
+      cases op with
+      | mode g => exact hx
+      | load o =>
+        by_cases he : (opG M custom x.mode x.st o).2 = .changedErr
+        · have e : stepEC M custom x (.load o) = x := by simp [stepEC, he]
+          rw [e]; exact hx
+        · have e : stepEC M custom x (.load o) =
+              { x with st := (opG M custom x.mode x.st o).1, c := cstep (withGen M custom x.mode) x.st x.c o } := by
+            simp [stepEC, he]
+          rw [e]
+          show CInv (opG M custom x.mode x.st o).1 (cstep (withGen M custom x.mode) x.st x.c o)
+          rw [opG_eq_step_withGen custom _ _ _ he]
+          exact cinv_step hx o
+  have h := gen ops ⟨MState.init, .ok, CState.init⟩
+    ⟨fun _ => rfl, fun _ => List.nodup_nil, fun _ _ hx => by simp [CState.init] at hx⟩
+  exact ⟨h.nodup k, h.fst k⟩
+
+/-- the manager component of `runEC` is `runE`'s -/
+theorem runEC_st (custom : R → Bool) (ops : List (GOp R)) : (runEC M custom ops).st = (runE M custom ops).st := by
+  have gen : ∀ (ops : List (GOp R)) (x : GCState R) (y : GState R), x.st = y.st → x.mode = y.mode →
+      (ops.foldl (stepEC M custom) x).st = (ops.foldl (stepE M custom) y).st := by
+    intro ops
+    induction ops with
+    | nil => intro x y h _; exact h
+    | cons op ops ih =>
+      intro x y h hm
+      rw [List.foldl_cons, List.foldl_cons]
+      cases op with
+      | mode g => exact ih _ _ h rfl
+      | load o =>
+        by_cases he : (opG M custom x.mode x.st o).2 = .changedErr
+        · have he' : (opG M custom y.mode y.st o).2 = .changedErr := by rw [← h, ← hm]; exact he
+          apply ih
+          · simp only [stepEC, stepE, he, he', if_true]
+            rw [← h, ← hm, opG_err_state custom _ _ _ he]
+          · simp only [stepEC, stepE, he, he', if_true]; exact hm
+        · have he' : ¬ (opG M custom y.mode y.st o).2 = .changedErr := by rw [← h, ← hm]; exact he
+          apply ih
+          · simp only [stepEC, stepE, he, he', if_false]; rw [h, hm]
+          · simp only [stepEC, stepE, he, he', if_false]; exact hm
+  exact gen ops _ _ rfl rfl
+
+/-! #### `GetRules` grouped by resource after a whole-set load (the `getord` observation) -/
+
+/-- what the getter holds for one resource has that resource's name -/
+theorem res_of_mem_pub (hM : Lawful M) (ops : List (Op R)) (rules : List (Option R)) (k : String) :
+    ∀ x ∈ (run M (ops ++ [.loadAll rules])).pub k, M.res x = k := by
+  have hI := inv_run hM (ops ++ [.loadAll rules])
+  have hL : latest M (ops ++ [.loadAll rules]) k = proj M k rules := by rw [latest_snoc]; rfl
+  have henf : ∀ y ∈ (run M (ops ++ [.loadAll rules])).enf k, M.res y = k := by
+    intro y hy; rw [hI.enf k, hL] at hy; exact res_of_mem_buildList hM hy
+  rcases hI.pub k with ⟨_, hp⟩ | ⟨_, hp | ⟨hp, _⟩⟩
+  · rw [hp]; exact res_of_forall₂ hM (hI.bound k) henf
+  · rw [hp, hL]
+    intro x hx
+    have := (List.mem_filter.mp ((List.mem_filterMap.mp (List.mem_filter.mp hx).1).choose_spec.1)).2
+    have hid := (List.mem_filterMap.mp (List.mem_filter.mp hx).1).choose_spec.2
+    simp only [id] at hid
+    rw [hid] at this
+    simpa using this
+  · rw [hp]; intro x hx; simp at hx
+
+/-- **`GetRules`, grouped stably by resource, is the per-resource getter of each resource, in the order the load gave**:
+    picking resource `k`'s rules out of `GetRules` (in whatever map order it came) yields exactly `GetRulesOfResource(k)` -/
+theorem getAll_filter_res (hM : Lawful M) (ops : List (Op R)) (rules : List (Option R)) (k : String) :
+    (getAll (run M (ops ++ [.loadAll rules]))).filter (fun x => M.res x == k) =
+      if k ∈ (run M (ops ++ [.loadAll rules])).keys then getRes (run M (ops ++ [.loadAll rules])) k else [] := by
+  unfold getAll getRes
+  rw [filter_flatMap_key M.res _ k _ (nodup_eraseDups_str _) (fun k' _ => res_of_mem_pub hM ops rules k')]
+  simp [List.mem_eraseDups]
+
+theorem groupStable_getAll (hM : Lawful M) (ops : List (Op R)) (rules : List (Option R)) (order : List String)
+    (ho : ∀ k ∈ order, k ∈ (run M (ops ++ [.loadAll rules])).keys) :
+    groupStable M.res order (getAll (run M (ops ++ [.loadAll rules]))) =
+      order.flatMap fun k => getRes (run M (ops ++ [.loadAll rules])) k := by
+  unfold groupStable
+  apply List.flatMap_congr
+  intro k hk
+  rw [getAll_filter_res hM ops rules k, if_pos (ho k hk)]
+
+/-- … and that is, resource by resource, the accepted rules of the load in load order (up to `sim` where controllers
+    are reused; exactly the valid rules of the group for the circuit breaker, whose getter reads `breakerRules`) -/
+theorem getord_eq_valid_in_load_order (hM : Lawful M) (hp : M.pubValid = false) (ops : List (Op R)) (rules : List (Option R))
+    (k : String) (hk : k ∈ (run M (ops ++ [.loadAll rules])).keys) :
+    List.Forall₂ (fun a b => M.sim a b = true)
+      ((getAll (run M (ops ++ [.loadAll rules]))).filter (fun x => M.res x == k)) (buildList M k (proj M k rules)) := by
+  rw [getAll_filter_res hM ops rules k, if_pos hk]
+  have := getters_eq_enforced hM hp (ops ++ [.loadAll rules]) k
+  rw [whole_load_replaces_everything hM] at this
+  exact this
+
+theorem getord_iso_exact (ops : List (Op IsoRule)) (rules : List (Option IsoRule)) (k : String)
+    (hk : k ∈ (run isoMod (ops ++ [.loadAll rules])).keys) :
+    (getAll (run isoMod (ops ++ [.loadAll rules]))).filter (fun x => x.res == k) = buildList isoMod k (proj isoMod k rules) := by
+  have := getAll_filter_res iso_lawful ops rules k
+  rw [if_pos hk] at this
+  rw [show (fun x : IsoRule => x.res == k) = (fun x => isoMod.res x == k) from rfl, this, iso_getters,
+      whole_load_replaces_everything iso_lawful]
+
+/-- circuit breaker (getter reads `breakerRules`): exact, outside `cb-getter-reports-unbuilt` -/
+theorem getord_cb_partial (ops : List (Op CbRule)) (rules : List (Option CbRule)) (k : String)
+    (hk : k ∈ (run cbMod (ops ++ [.loadAll rules])).keys)
+    (h : ∀ r ∈ validList cbMod (proj cbMod k rules), built cbMod k r = true) :
+    (getAll (run cbMod (ops ++ [.loadAll rules]))).filter (fun x => x.res == k) = buildList cbMod k (proj cbMod k rules) := by
+  have e := getAll_filter_res cb_lawful ops rules k
+  rw [if_pos hk] at e
+  have g := getters_eq_enforced_partial cb_lawful rfl (ops ++ [.loadAll rules]) k (by rw [latest_snoc]; exact h)
+  rw [whole_load_replaces_everything cb_lawful] at g
+  rw [show (fun x : CbRule => x.res == k) = (fun x => cbMod.res x == k) from rfl, e]
+  exact g
+
+/-- system: `GetRules` grouped stably by metric type is the valid rules of the latest load, in load order within each type -/
+theorem sys_getord (loads : List (List (Option SysRule))) (rules : List (Option SysRule)) (order : List String) :
+    groupStable (fun r : SysRule => toString r.metric) order (runSys (loads ++ [rules])).enf =
+      groupStable (fun r : SysRule => toString r.metric) order (sysBuild rules) := by
+  rw [(sinv_run (loads ++ [rules])).enf]
+  simp
+
+end modes
+
 /-! ### system -/
 
 /-- the enforced system rules are the valid rules of the latest load, in order -/
